@@ -9,10 +9,10 @@ from . import adftext as T
 from .semjobs import repo_test_instances
 
 MATRIX = {
-    'grounded': [('naive', 'grounded'), ('biodivine', 'grounded'), ('hybrid', 'grounded'), ('hybrid_noopt', 'grounded')],
-    'complete': [('naive', 'complete'), ('biodivine', 'complete'), ('hybrid', 'complete'), ('hybrid_noopt', 'complete')],
+    'grounded': [('naive', 'grounded'), ('biodivine', 'grounded'), ('hybrid', 'grounded'), ('hybrid_noopt', 'grounded'), ('hybrid_rew', 'grounded')],
+    'complete': [('naive', 'complete'), ('biodivine', 'complete'), ('hybrid', 'complete'), ('hybrid_noopt', 'complete'), ('hybrid_rew', 'complete')],
     'stable': [('naive', 'stable'), ('naive', 'stable_with_prefilter'), ('biodivine', 'stable'), ('biodivine', 'stmrew'), ('biodivine', 'stmrew2'),
-               ('hybrid', 'stable'), ('hybrid', 'stable_with_prefilter'), ('hybrid', 'stmrew'), ('hybrid', 'stmrew2'), ('hybrid_noopt', 'stable')],
+               ('hybrid', 'stable'), ('hybrid', 'stable_with_prefilter'), ('hybrid', 'stmrew'), ('hybrid', 'stmrew2'), ('hybrid_noopt', 'stable'), ('hybrid_rew', 'stable')],
     'stable_counting': [('hybrid', 'heu_a'), ('hybrid', 'heu_b'), ('hybrid_noopt', 'heu_a'), ('naive', 'heu_a'), ('naive', 'heu_b')],
     'stable_nogood': [('hybrid', 'nogood:Simple'), ('hybrid', 'nogood:MinModMinPathsMaxVarImp'), ('hybrid_noopt', 'nogood:MinModMaxVarImpMinPaths'), ('naive', 'nogood:Simple')],
     'models_nogood': [('hybrid', 'twoval_channel:Simple'), ('naive', 'twoval_channel:MinModMinPathsMaxVarImp')],
